@@ -204,7 +204,13 @@ def reader_cases(n):
              ("con1", n, [(f"b{i}", r) for i, r in enumerate(rot)])]
     # a ballot identifier repeated inside one contest (a re-scanned / corrected record): the later row stands
     rep = [("con1", n, [(f"b{i}", r) for i, r in enumerate(alpha)] + [(f"b{i}", alpha[(i * 3 + 1) % len(alpha)]) for i in range(0, len(alpha), 3)])]
-    return {"one": one, "two-shared-ids": two, "two-reversed-header": inter, "id-repeated-in-contest": rep}
+    out = {"one": one, "two-shared-ids": two, "two-reversed-header": inter, "id-repeated-in-contest": rep}
+    if n == 3:  # thousands of rows: every ballot's two rows are thousands of lines apart, some identifiers come back much later
+        K = 7000
+        out["two-shared-ids-thousands-of-rows"] = [
+            ("con1", n, [(f"b{i}", alpha[i % len(alpha)]) for i in range(K)] + [(f"b{i}", alpha[(i + 1) % len(alpha)]) for i in range(0, K, 1000)]),
+            ("con2", m, [(f"b{i}", alpha2[(i * 5) % len(alpha2)]) for i in range(K - 1, -1, -2)] + [("only2", alpha2[-1])])]
+    return out
 
 
 def judge_readers(n, layout):
